@@ -105,7 +105,7 @@ PROPS = {
     "C01": {
         "category": "other",
         "harness_modes": ["crosscheck"],
-        "depends": [("C33", ["compare_tags"])],
+        "depends": [("C33", ["compare_tags"]), ("C02", ["_is_parent_tag"])],
         "explanation": "Fragment (the per-function core). Proved for every list length: ScatterStep._scatter emits element i retagged <tag>.<i> with its value, in list "
         "order, followed by exactly one size token <tag> carrying the length (0 for an empty list); GatherStep._gather emits exactly one ListToken carrying the key as tag "
         "whose items are exactly the key's collected elements ordered by compare_tags, i.e. depth first and then NUMERICALLY per component (compare_tags itself is proved "
